@@ -133,4 +133,17 @@ def rule_failure_reported(ctx):
                           'Ok and the partial report replaces the served data', loc=Site(w, sbb).loc(), path=fmt_path(w, p))
 
 
-RULES = [rule_guard, rule_callers, rule_fields, rule_failure_reported]
+def rule_run_phases(ctx):
+    """ValidationReport::process hands out a report only if starting, processing AND cleaning up all succeeded."""
+    from lib.rules import G, require_guards
+    b = ctx.body('payload::validation::ValidationReport::process')
+    oks = [site for site, st in b.stmts() if st['s'] == 'assign' and st['lhs'] == [0] and st['rv']['r'] == 'agg' and st['rv'].get('variant') == 'Ok']
+    ctx.floor('K1', 'Ok return of ValidationReport::process', len(oks), 1)
+    require_guards(ctx, 'K1', b, oks, [
+        G('Ok(Engine::start)', call='engine::Engine::start', labels={'Ok', 'pass'}),
+        G('Ok(Run::process)', call='engine::Run::process', labels={'Ok', 'pass'}),
+        G('Ok(Run::cleanup)', call='engine::Run::cleanup', labels={'Ok', 'pass'}),
+    ], 'a run whose start, processing or cleanup phase failed is a failed run: its report must not reach SharedHistory::update')
+
+
+RULES = [rule_run_phases, rule_guard, rule_callers, rule_fields, rule_failure_reported]
